@@ -166,7 +166,8 @@ func shEmitterBytes(c int, a string) [32]byte {
 	return e
 }
 
-// vaaBytes builds a real signed VAA encoding for abstract (id, chain, address name).
+// vaaBytes builds a real signed VAA encoding for abstract (id, chain, address name).  Called by the scenario's
+// driver goroutine only (r.seq is its own); the name table is shared with the stream goroutines, hence r.mu.
 func (r *shRun) vaaBytes(id string, c int, a string) []byte {
 	r.seq++
 	v := &vhVAA{Version: 1, SetIndex: 0, Ts: 1700000000 + uint32(r.seq), Nonce: uint32(r.sc), EChain: uint16(c),
@@ -178,7 +179,9 @@ func (r *shRun) vaaBytes(id string, c int, a string) []byte {
 	copy(s.Sig[:], sig)
 	v.Sigs = []vhSig{s}
 	b := v.Encode()
+	r.mu.Lock()
 	r.names[hex.EncodeToString(b)] = id
+	r.mu.Unlock()
 	return b
 }
 
